@@ -1283,8 +1283,13 @@ def r_invcode(ctx) -> RuleResult:
                 out_.setdefault(nm, v)
         return out_
     ps = params_of(gfm.node)
-    if len(ps) != 2:
+    a_ = gfm.node.args
+    n_required = len(a_.posonlyargs + a_.args) - len(a_.defaults)
+    if len(ps) < 2 or n_required > 2 or any(d is None for d in a_.kw_defaults):
         raise AnalysisError("R-INVCODE: graph_from_molecule no longer takes the atom table and the bond table")
+    # further parameters have defaults (what every caller in the repository gets): bound below by the evaluator
+    extra_defaults = dict(zip([x.arg for x in (a_.posonlyargs + a_.args)][-len(a_.defaults):], a_.defaults)) if a_.defaults else {}
+    extra_defaults.update({x.arg: d for x, d in zip(a_.kwonlyargs, a_.kw_defaults)})
     calls, records = {}, {}
     for g in [ctx.cg.funcs[q] for q in ctx.cg.closure([gfm.fq])]:
         if g.cls is None and "." not in g.qualname:
@@ -1353,6 +1358,9 @@ def r_invcode(ctx) -> RuleResult:
         env.setdefault(k_, v_)
     env[ps[0]] = copy.deepcopy(atoms)
     env[ps[1]] = {}
+    for p_, d_ in extra_defaults.items():
+        if p_ not in (ps[0], ps[1]):
+            env[p_] = pe.ev(d_, PState(dict(env)))
     try:
         falls, lefts = pe.block(gfm.node.body, [PState(env)])
     except Exception as ex:
